@@ -1,5 +1,59 @@
-(* C02 -- placeholder while the proofs are being written *)
-From Coq Require Import ZArith List.
-From L60870 Require Import Asdu.Layout Asdu.Codec gen.AsduTable.
-Theorem C02_table_nonempty : table <> nil.
-Proof. discriminate. Qed.
+(* C02 -- parsing untrusted ASDU bytes is total, memory-safe and exact about truncation.
+   Model: Asdu/Codec.v (get_element = CS101_ASDU_createFromBuffer + CS101_ASDU_getElementEx over checked reads;
+   a read outside the supplied octets or a write through a NULL result is the outcome `Fault`).
+   The theorems hold for EVERY table row that satisfies the decidable predicate row_dec_okb, every address-size
+   configuration, every octet string and every index >= 0; C02_current re-establishes the predicate by evaluation
+   over the table regenerated from /repo on this run. *)
+From Coq Require Import ZArith List Bool String.
+From L60870 Require Import Asdu.Layout Asdu.Codec Asdu.CodecProofs gen.AsduTable gen.AsduKnown.
+Import ListNotations.
+Local Open Scope Z_scope.
+
+(* never a Fault: no read outside the message, no write through a NULL result -- for all byte strings and indices *)
+Theorem C02_total_safe : forall tbl a msg idx, ioa_ok a -> 0 <= idx ->
+  (forall r, find_row tbl (msg_type msg) = Some r -> row_dec_okb r = true) ->
+  exists res, get_element tbl a msg idx = Ok res.
+Proof. exact get_element_total. Qed.
+
+(* unknown type identifications yield no object *)
+Theorem C02_unknown_type : forall tbl a msg idx, find_row tbl (msg_type msg) = None -> get_element tbl a msg idx = Ok None.
+Proof. exact get_element_unknown. Qed.
+
+(* an object is returned exactly when the element lies completely inside the supplied octets (standard's layout:
+   lay_off/lay_len are computed from std_len, the SQ bit and the address size only) *)
+Theorem C02_exact : forall tbl a msg idx r n, ioa_ok a -> 0 <= idx -> 0 <= hdr_len a ->
+  find_row tbl (msg_type msg) = Some r -> row_dec_okb r = true -> std_len (tid r) = Some (Fixed n) ->
+  ((exists o, get_element tbl a msg idx = Ok (Some o)) <->
+   hdr_len a <= len msg /\
+   lay_off (r_elem r) a (msg_sq msg) n idx + lay_len (r_elem r) a (msg_sq msg) n <= len msg - hdr_len a).
+Proof. exact get_element_exact. Qed.
+
+(* and the object consists of exactly those octets: the implementation model equals the specification function
+   spec_element, which is written from the standard's layout alone *)
+Theorem C02_decodes_exact_octets : forall tbl a msg idx r, ioa_ok a -> 0 <= idx ->
+  find_row tbl (msg_type msg) = Some r -> row_dec_okb r = true ->
+  get_element tbl a msg idx = Ok (spec_element tbl a msg idx).
+Proof. exact get_element_spec. Qed.
+
+(* the header is accepted iff all its octets are present *)
+Theorem C02_header : forall a msg, parse_hdr a msg = None <-> len msg < hdr_len a.
+Proof. exact parse_hdr_none. Qed.
+
+(* per run: every row of the table regenerated from the working tree (except rows named by open findings) is right *)
+Theorem C02_current : forall r, In r table -> ~ In (tid r) known_C02 -> row_c02_okb r = true.
+Proof. apply rows_okb_sound. vm_compute. reflexivity. Qed.
+
+(* the hypotheses are inhabited, and they are necessary: the same row without the guard on the SQ address fix-up faults *)
+Definition ex_row (g : bool) : row :=
+  {| tid := 13; rname := "M_ME_NC_1"%string; r_enc := EncUnrecognised ""%string;
+     r_dec := Dec true (MStd 5) None IoaSq [RAt 0; RAt 1; RAt 2; RAt 3; RAt 4]; r_elem := ESeq 5 5 g g |}.
+Definition ex_alp : alp := {| cot_sz := 1; ca_sz := 1; ioa_sz := 1; max_asdu := 249 |}.
+Example C02_inhabited :
+  row_dec_okb (ex_row true) = true /\
+  get_element [ex_row true] ex_alp [13; 129; 3; 1; 5; 1; 2; 3; 4; 5] 0 = Ok (Some {| io_addr := 5; io_body := [1; 2; 3; 4; 5] |}) /\
+  get_element [ex_row true] ex_alp [13; 129; 3; 1; 5; 1; 2; 3; 4] 0 = Ok None.
+Proof. vm_compute. repeat split. Qed.
+Example C02_guard_necessary :
+  get_element [ex_row false] ex_alp [13; 129; 3; 1; 5; 1; 2; 3; 4] 0 = Fault NullWrite /\
+  get_element [ex_row false] ex_alp [13; 129; 3; 1] 0 = Fault OOBRead.
+Proof. vm_compute. split; reflexivity. Qed.
